@@ -587,6 +587,8 @@ class G:
         ("guard-assign-names", "module m1 {\n  let x = (from t | select {a} | take 3)\n}\nmodule m2 {\n  let x = (from u | select {a} | take 2)\n}\nfrom b = m1.x\njoin y = m2.x (b.a == y.a)\nselect {b.a, ya = y.a}"),
         ("guard-assign-names", "module m1 {\n  let x = (from t | select {a} | take 3)\n}\nmodule m2 {\n  let x = (from u | select {a} | take 2)\n}\nfrom m1.x\nappend m2.x"),
         ("guard-assign-names", "let u = (from u | filter a > 1 | take 4)\nfrom t\njoin u (==id)\nselect {t.a, u.d}"),
+        ("1f1ce08", "from t\ngroup {a} (aggregate {x6 = count b})\nselect {a}\ngroup {a} (take 1)\naggregate {x9 = count this}"),
+        ("1f1ce08", "from t\ngroup {a, g} (aggregate {m = max b})\nselect {a, g}\ngroup {a, g} (take 1)\naggregate {n = count this}"),
         ("006e33c", "from t\nderive {x = that}"),
         ("006e33c", "from t\njoin u (==id)\nfilter that.a > 1"),
         ("7f02b48", "module m {\n  let x = (from t | select {a})\n  module n {\n    let y = (from x | take 2)\n  }\n}\nfrom m.n.y"),
